@@ -270,13 +270,19 @@ Section Verify.
     keccak256 (packet_path ack src dst seq ++ pad32_208).
 
   (** [produceVerificationArgs].  A nil [exported.Height] makes [Height.Compare] panic (failed type
-      assertion); a nil proof slice and undecodable JSON are errors. *)
-  Definition produce_args (cs : client_state) (cstore : bytes -> cons_entry)
+      assertion); a proof height above the head, a proof height whose revision number differs from the
+      head's, a nil proof slice and undecodable JSON are errors.
+
+      [revgate = true] is the code since fix commit 0ebe7e9 ("ETH and BSC proof verification rejects proof
+      heights of another revision"); [revgate = false] is the code before it, kept ([produce_args_old],
+      [verify_old]) only for Refuted/C08_refuted.v. *)
+  Definition produce_args_gen (revgate : bool) (cs : client_state) (cstore : bytes -> cons_entry)
              (h : option height) (proof : option bytes) : outcome (proof_rec * bytes) :=
     match h with
     | None => Panic
     | Some h =>
         if height_lt (cs_head cs) h then Err
+        else if revgate && negb (rn h =? rn (cs_head cs)) then Err
         else match proof with
              | None => Err
              | Some p =>
@@ -290,6 +296,9 @@ Section Verify.
                  end
              end
     end.
+
+  Definition produce_args := produce_args_gen true.
+  Definition produce_args_old := produce_args_gen false.
 
   (** [verifyMerkleProof] *)
   Definition verify_merkle (r : proof_rec) (root contract commitment pkey : bytes) : outcome unit :=
@@ -322,10 +331,10 @@ Section Verify.
   (** [VerifyPacketCommitment] ([ack = false]) / [VerifyPacketAcknowledgement] ([ack = true]).
       [delayBlock := cs.Header.Height.RevisionHeight - height.GetRevisionHeight()] is a uint64
       subtraction of the revision HEIGHTS only. *)
-  Definition verify (cs : client_state) (cstore : bytes -> cons_entry) (h : option height)
+  Definition verify_gen (revgate : bool) (cs : client_state) (cstore : bytes -> cons_entry) (h : option height)
              (proof : option bytes) (ack : bool) (src dst : bytes) (seq : N) (commitment : bytes)
     : outcome unit :=
-    match produce_args cs cstore h proof with
+    match produce_args_gen revgate cs cstore h proof with
     | Ok (r, root) =>
         match h with
         | None => Panic
@@ -336,6 +345,11 @@ Section Verify.
     | Err => Err
     | Panic => Panic
     end.
+
+  (** the code as it is *)
+  Definition verify := verify_gen true.
+  (** the code before fix 0ebe7e9 (no revision gate) *)
+  Definition verify_old := verify_gen false.
 
   (** The oracle calls [verify] makes on a given input (same control flow): used by the correspondence
       check to detect a model query the harness did not tabulate; [Proofs/EvmProof.v] shows that
@@ -366,6 +380,7 @@ Section Verify.
     | None => []
     | Some h =>
         if height_lt (cs_head cs) h then []
+        else if negb (rn h =? rn (cs_head cs)) then []
         else match proof with
              | None => []
              | Some p =>
